@@ -25,7 +25,7 @@ def run(tier):
         chk.layer('B.sequences', static_pairs_with_sequence_overloads=seq_static, runtime_pairs_with_sequence_overloads=len([e for e in evs if e['entry'] == 'run']),
                   component_comparisons=sum(max(0, e['seq_n']) for e in evs),
                   note='std::array / std::vector / PlanarVector / Vector / SymmetricDyad / Dyad overloads of Convert, ConvertInPlace (every run-time pair) and ConvertStatically '
-                       '(every unit to / from standard and to its successor) against the scalar overload, within one ulp per component')
+                       '(every unit to / from standard and to its successor) against the scalar overload, within two representable neighbours per component')
         chk.layer('B', abstract_events=len(evs), concrete_conversions=nvals,
                   ordered_pairs=len({(e['type'], e['from'], e['to']) for e in evs}),
                   worst_ulps=max([e['ulps'] for e in evs] or [0]), budget_ulps=16,
